@@ -140,9 +140,15 @@ Definition lookup (s : st) (n : Z) : st * nat :=
 
 (* ports.Manager.Acquire as far as the group needs it *)
 Definition allowed (s : st) (p : Z) : bool := (s_lo s <=? p) && (p <=? s_hi s).
+(* is some allowed port neither used nor reserved by a group?  (evaluated only for small ranges) *)
+Definition free_exists (s : st) : bool :=
+  existsb (fun n => negb (rmem [s_lo s + Z.of_nat n] (s_used s))) (seq 0 (Z.to_nat (s_hi s - s_lo s + 1))).
 Definition acquire (s : st) (j : jreq) : jres :=
   if j_port j =? 0 then
-    if j_pick j =? 0 then JErr ENoPort
+    if j_pick j =? 0 then
+      (* ErrNoAvailablePort: legitimate when no allowed port is free, or the OS refused the ones tried
+         (j_os = false); with a free port and a willing OS the manager finds one *)
+      (if j_os j && free_exists s then JErr EOracle else JErr ENoPort)
     else if allowed s (j_pick j) && negb (rmem [j_pick j] (s_used s)) then JOk (j_pick j)
     else JErr EOracle
   else if allowed s (j_port j) && negb (rmem [j_port j] (s_used s)) then
